@@ -23,7 +23,7 @@ import (
 
 // Fault selects the result-set shape every statement of the request gets and the one injected fault.
 type Fault struct {
-	Shape string `json:"shape"`          // empty | 1batch | 3batches | edge
+	Shape string `json:"shape"`          // empty | 1batch | 3batches | edge | 3batches_mixed
 	Kind  string `json:"kind,omitempty"` // "" | open_err | row_err | scan_err | end_err | block | block_open
 	Nth   int    `json:"nth,omitempty"`  // index (0-based, in order of arrival) of the statement that gets the fault
 	Row   int    `json:"row,omitempty"`  // row index k for row_err / scan_err / block
@@ -364,7 +364,7 @@ func shapeRows(shape string) int {
 	switch shape {
 	case "empty":
 		return 0
-	case "3batches":
+	case "3batches", "3batches_mixed":
 		return 250
 	}
 	return 3
@@ -418,6 +418,7 @@ func (s *Script) Handle(ctx context.Context, q string, _ []driver.NamedValue) (*
 	res := fakesql.NewResult(cols...)
 	n := shapeRows(s.fault.Shape)
 	edge := s.fault.Shape == "edge"
+	mixed := s.fault.Shape == "3batches_mixed" // a large result in which every 7th row carries edge values
 	w := parseWindow(q)
 	if w.empty() && !cl.single {
 		n = 0
@@ -426,7 +427,7 @@ func (s *Script) Handle(ctx context.Context, q string, _ []driver.NamedValue) (*
 		res.Add(cl.row(0, n, edge, w)...)
 	} else {
 		for i := 0; i < n; i++ {
-			res.Add(cl.row(i, n, edge, w)...)
+			res.Add(cl.row(i, n, edge || (mixed && i%7 == 5), w)...)
 		}
 	}
 	s.mu.Lock()
